@@ -408,14 +408,17 @@ def run_shard(sh):
             check_commented(sh, i)
     # containers longer than the DEFAULT limit (1000), at top level and nested, with None / larger / equal limits
     big = 0
-    for n in (1000, 1001, 1500):
-        for holder in ('top', 'list', 'dictvalue', 'tuple-in-list', 'nt', 'set'):
-            for N in (None, 5000, n, n - 1, 1000):
+    for n in (1000, 1001, 1500, 3500, 12345):
+        for holder in ('top', 'list', 'dictvalue', 'tuple-in-list', 'nt', 'set', 'dict'):
+            # the dropped count K goes up to 12345 (counts of four and more digits, written as plain decimal integers)
+            for N in ((None, 5000, n, n - 1, 1000) if n <= 1500 else (1000, 1, 2, n - 1000, n - 999)):
                 big += 1
                 if not sh.mine(big):
                     continue
                 inner = ['set', [['int', j] for j in range(n)]] if holder == 'set' else ['list', [['int', j] for j in range(n)]]
-                recipe = {'top': inner, 'set': ['list', [inner]], 'list': ['list', [['int', -1], inner]], 'dictvalue': ['dict', [[['str', 'k'], inner]]],
+                if holder == 'dict':
+                    inner = ['dict', [[['int', j], ['int', -j]] for j in range(n)]]
+                recipe = {'top': inner, 'dict': inner, 'set': ['list', [inner]], 'list': ['list', [['int', -1], inner]], 'dictvalue': ['dict', [[['str', 'k'], inner]]],
                           'tuple-in-list': ['list', [['tuple', [inner, ['int', -2]]]]], 'nt': ['call', 'NTH', [], [['a', inner], ['b', ['int', 0]]]]}[holder]
                 check_one(sh, recipe, N, 79, False)
                 sh.case(('big', n, holder, N), nontrivial=True)
